@@ -560,7 +560,20 @@ func (in *Interp) decideLt(st *State, l, r Val) []condRes {
 	if l.Canon() == r.Canon() {
 		return []condRes{{st, false}}
 	}
-	return in.decide(st, "("+l.Canon()+" < "+r.Canon()+")")
+	a, b := l.Canon(), r.Canon()
+	// entailed by an order assumption already on this path: !(b <= a), or not even a <= b, or b < a
+	return in.decideEntailed(st, "("+a+" < "+b+")", func() (bool, bool) {
+		if v, ok := st.Assumed["("+b+" <= "+a+")"]; ok {
+			return !v, true
+		}
+		if v, ok := st.Assumed["("+a+" <= "+b+")"]; ok && !v {
+			return false, true
+		}
+		if v, ok := st.Assumed["("+b+" < "+a+")"]; ok && v {
+			return false, true
+		}
+		return false, false
+	})
 }
 
 func (in *Interp) decideLe(st *State, l, r Val) []condRes {
@@ -573,16 +586,37 @@ func (in *Interp) decideLe(st *State, l, r Val) []condRes {
 		// x <= x is true except for NaN; rules for floats bind their own atoms
 		return in.decide(st, "("+l.Canon()+" <= "+r.Canon()+")")
 	}
-	return in.decide(st, "("+l.Canon()+" <= "+r.Canon()+")")
+	a, b := l.Canon(), r.Canon()
+	// a <= b is !(b < a); a < b entails it
+	return in.decideEntailed(st, "("+a+" <= "+b+")", func() (bool, bool) {
+		if v, ok := st.Assumed["("+b+" < "+a+")"]; ok {
+			return !v, true
+		}
+		if v, ok := st.Assumed["("+a+" < "+b+")"]; ok && v {
+			return true, true
+		}
+		return false, false
+	})
 }
 
 // decide looks an atom up in the path's assumptions, asks the rule, or forks.
 func (in *Interp) decide(st *State, atom string) []condRes {
+	return in.decideEntailed(st, atom, nil)
+}
+
+// decideEntailed is decide with a last resort before forking: an answer entailed by other assumptions of the
+// path (the rule's Cond hook is asked first, so a rule that models unordered values keeps its say).
+func (in *Interp) decideEntailed(st *State, atom string, entailed func() (bool, bool)) []condRes {
 	if b, ok := st.Assumed[atom]; ok {
 		return []condRes{{st, b}}
 	}
 	if in.Hooks.Cond != nil {
 		if b, ok := in.Hooks.Cond(st, atom); ok {
+			return []condRes{{st, b}}
+		}
+	}
+	if entailed != nil {
+		if b, ok := entailed(); ok {
 			return []condRes{{st, b}}
 		}
 	}
@@ -617,6 +651,15 @@ func (in *Interp) arith(st *State, op token.Token, l, r Val, pos token.Pos) Val 
 			return Const{constant.Shift(lc.V, op, uint(s))}
 		}
 		return Const{constant.BinaryOp(lc.V, op, rc.V)}
+	}
+	// the empty string is the neutral element of concatenation
+	if op == token.ADD {
+		if lok && lc.V.Kind() == constant.String && constant.StringVal(lc.V) == "" {
+			return r
+		}
+		if rok && rc.V.Kind() == constant.String && constant.StringVal(rc.V) == "" {
+			return l
+		}
 	}
 	return Sym{Name: "(" + l.Canon() + " " + op.String() + " " + r.Canon() + ")"}
 }
